@@ -310,6 +310,27 @@ End Instantiate.
 Arguments LGlobal {G O} g.
 Arguments LObj {G O} owner o.
 
+(* the form used by the per-run file: `writers` is the generated list (any record type A), `name`
+   projects the variable out of a record; an empty list discharges the premise *)
+Theorem no_listed_writers_independent :
+  forall (A G O val out st : Type)
+         (G_eq_dec : forall a b : G, {a = b} + {a <> b}) (O_eq_dec : forall a b : O, {a = b} + {a <> b})
+         (writers : list A) (name : A -> G) (next : tid -> st -> action (gloc G O) val out st),
+    writers = [] ->
+    (forall t s, respects (map name writers) t (next t s)) ->
+    forall (sched : list tid) (c : cfg (gloc G O) val out st) (t : tid),
+      let dec := gloc_eq_dec G_eq_dec O_eq_dec in
+      let y := solo dec next t (times t sched) (view c t) in
+      sts (run dec next sched c) t = l_st y /\
+      outs (run dec next sched c) t = l_out y /\
+      (forall o, hp (run dec next sched c) (LObj t o) = l_hp y (LObj t o)) /\
+      (forall g, hp (run dec next sched c) (LGlobal g) = hp c (LGlobal g)).
+Proof.
+  intros A G O val out st G_eq_dec O_eq_dec writers name next Hw Hr sched c t.
+  apply (@no_writers_independent G O val out st G_eq_dec O_eq_dec (map name writers) next); [ | exact Hr].
+  rewrite Hw. reflexivity.
+Qed.
+
 (* ---------------------------------------------------------------------------------------------- *)
 (* Non-vacuity 1: a system satisfying the premise, with a non-trivial interleaving.                *)
 Module ExampleOK.
@@ -396,4 +417,5 @@ End ExampleRacy.
 
 Print Assumptions schedule_independence.
 Print Assumptions no_writers_independent.
+Print Assumptions no_listed_writers_independent.
 Print Assumptions ExampleRacy.premise_is_needed.
